@@ -12,7 +12,7 @@ import tempfile
 import numpy as np
 
 from .. import core, gen
-from . import c14, c16
+from . import c06, c14, c16
 
 ID = "C19"
 LEVEL = "exploration"
@@ -72,7 +72,8 @@ def valid_pipeline(rng):
                 for r in req[p]:
                     if r not in sel:
                         sel.append(r)
-        steps = preproc.autosort(sel)
+        # (own ordering: the generator does not rely on nanite's autosort)
+        steps = c06.toposort(sel, req, opt)
         if "compute_tip_position" in steps and \
                 "smooth_height" not in steps:
             return steps
